@@ -59,7 +59,8 @@ enum FaultKind : unsigned {
   F_SPURIOUS     = 1u << 7,   // condition variable spurious wake-up
   F_COND_ANY     = 1u << 8,   // notify_one wakes a PRNG-chosen waiter instead of the oldest
   F_STALL        = 1u << 9,   // a thread about to take a mutex is descheduled for a while (virtual ms) although it is runnable: a stalled / pre-empted thread
-  F_ALL          = 0x3ffu
+  F_OPEN_FAIL    = 1u << 10,  // open() of a path under the registered prefix fails with EMFILE (transient: the next attempt is drawn afresh)
+  F_ALL          = 0x7ffu
 };
 const char *fault_name(unsigned kind);
 
@@ -69,6 +70,7 @@ void fault_scope(uint64_t fseed, unsigned mask);
 void fault_rate(unsigned kind, unsigned permille);
 void fault_late_max_ms(long ms);
 void fault_stall_max_ms(long ms);
+void fault_open_prefix(const char *path_prefix);   // open() faults apply to paths that start with this prefix only
 // descriptors on which read/write faults may be injected (default: none).
 void fault_fd(int fd, bool on);
 void fault_all_sockets(bool on);     // every socket/pipe not explicitly excluded
